@@ -132,8 +132,8 @@ def keyfn(line, code):
         return "R10-count-test-accepts-non-R10-5x5"
     if any(op in (3, 4) for op in script_ops(line)):
         return "complete-or-refine-of-an-already-decomposed-node"
-    if code == 242 and line.split()[8] == "0":
-        return "no-series-parallel-mode:stored-violator-minor"
+    if code == 242:
+        return "stored-determinant-minor-is-not-a-violator"
     return line
 
 
